@@ -79,7 +79,9 @@ Definition obs_safe (o : hobs) : bool :=
                                 && (1 <=? nth (Z.to_nat q) (ho_refs o) 0))
                      (combine w2s segs))
           (ho_progs o)
-  && negb (herr_eqb (ho_err o) HInternal).
+  && negb (herr_eqb (ho_err o) HInternal)
+  (* the driver's record of the slot contents (which clause 1 compares hashes against) is what the instrument holds *)
+  && list_eqb (opt_eqb Z.eqb) (map Some (ho_hashes o)) (ho_dev o).
 
 Definition check_corr (c : case) : bool :=
   match c with
